@@ -14,7 +14,7 @@
 (***************************************************************************)
 EXTENDS Prelude
 
-OneShot == {"generator", "dataiterator", "featuredb"}
+OneShot == {"generator", "iterator", "dataiterator", "featuredb"}     \* "iterator": any object with __next__ that is not a generator (iter(list), map(...))
 ReReadable == {"path", "gz", "string", "list"}
 Forms == OneShot \cup ReReadable
 
